@@ -415,3 +415,241 @@ Proof.
   unfold pratt. pose proof (pratt_expr_no_fail 0 items _ (Nat.le_refl _)) as H.
   destruct (pratt_expr (2 * items_size items + 2) 0 items) as [[t r]| |]; congruence.
 Qed.
+
+(* ================================================================ D. atoms ... programs *)
+
+Lemma parse_term_len ts t rest : parse_term ts = POk (t, rest) -> List.length rest < List.length ts.
+Proof.
+  unfold parse_term. destruct (peg_term (S (List.length ts)) ts) as [[items r]|] eqn:E; [|discriminate].
+  apply peg_term_len in E. destruct (pratt items); try discriminate. cbn [pbind]. intros [= _ <-]. exact E.
+Qed.
+
+(* [parse_term] with arbitrary counters above the bounds it computes *)
+Definition parse_term_with (f : nat) (g : list item -> nat) (ts : list token) : pres (term * list token) :=
+  match peg_term f ts with
+  | None => PFail
+  | Some (items, rest) =>
+    pbind (match pratt_expr (g items) 0 items with
+           | POk (t, _) => POk t | PFail => PFail | PPanic => PPanic end)
+          (fun t => POk (t, rest))
+  end.
+
+Theorem parse_term_fuel f g ts : List.length ts < f -> (forall items, 2 * items_size items + 2 <= g items) ->
+  parse_term_with f g ts = parse_term ts.
+Proof.
+  intros Hf Hg. unfold parse_term_with, parse_term, pratt.
+  rewrite (peg_term_fuel f (S (List.length ts))) by lia.
+  destruct (peg_term (S (List.length ts)) ts) as [[items r]|]; [|reflexivity].
+  rewrite (pratt_expr_fuel 0 items (g items) (Hg items)). reflexivity.
+Qed.
+
+Lemma parse_more_terms_len n : forall ts l rest, parse_more_terms n ts = POk (l, rest) ->
+  List.length rest <= List.length ts.
+Proof.
+  induction n as [|n IH]; intros ts l rest; cbn [parse_more_terms]; [intros [= _ <-]; lia|].
+  destruct ts as [|t r]; [intros [= _ <-]; lia|].
+  destruct t; try (intros [= _ <-]; lia).
+  destruct (parse_term r) as [[u r']| |] eqn:E; try discriminate; [|intros [= _ <-]; lia].
+  apply parse_term_len in E.
+  destruct (parse_more_terms n r') as [[l' r'']| |] eqn:E2; try discriminate.
+  cbn [pbind]. intros [= _ <-]. apply IH in E2. cbn [List.length]. lia.
+Qed.
+
+Lemma parse_more_terms_fuel : forall n m ts, List.length ts <= n -> List.length ts <= m ->
+  parse_more_terms n ts = parse_more_terms m ts.
+Proof.
+  induction n as [|n IH]; intros m ts Hn Hm.
+  - destruct ts; [|cbn in Hn; lia]. destruct m; reflexivity.
+  - destruct m as [|m]; [destruct ts; [reflexivity|cbn in Hm; lia]|].
+    cbn [parse_more_terms]. destruct ts as [|t r]; [reflexivity|]. destruct t; try reflexivity.
+    cbn [List.length] in *.
+    destruct (parse_term r) as [[u r']| |] eqn:E; try reflexivity.
+    apply parse_term_len in E. rewrite (IH m) by lia. reflexivity.
+Qed.
+
+Lemma parse_term_tuple_len ts l rest : parse_term_tuple ts = POk (l, rest) ->
+  List.length rest < List.length ts.
+Proof.
+  unfold parse_term_tuple. destruct ts as [|t r]; [discriminate|]. destruct t; try discriminate.
+  cbn [List.length].
+  destruct (parse_term r) as [[u r']| |] eqn:E; try discriminate.
+  - apply parse_term_len in E.
+    destruct (parse_more_terms (List.length r') r') as [[l' r'']| |] eqn:E2; try discriminate.
+    cbn [pbind]. apply parse_more_terms_len in E2.
+    destruct r'' as [|[] r3]; try discriminate. intros [= _ <-]. cbn [List.length] in E2. lia.
+  - cbn [pbind]. destruct r as [|[] r3]; try discriminate. intros [= _ <-]. cbn [List.length]. lia.
+Qed.
+
+Lemma parse_atom_len ts a rest : parse_atom ts = POk (a, rest) -> List.length rest < List.length ts.
+Proof.
+  unfold parse_atom. destruct ts as [|t r]; [discriminate|]. destruct t; try discriminate.
+  cbn [List.length].
+  destruct (parse_term_tuple r) as [[args r']| |] eqn:E; try discriminate.
+  - intros [= _ <-]. apply parse_term_tuple_len in E. lia.
+  - intros [= _ <-]. lia.
+Qed.
+
+Lemma parse_sign_len ts : List.length (snd (parse_sign ts)) <= List.length ts.
+Proof. destruct ts as [|[] [|[] r]]; cbn; lia. Qed.
+
+Lemma parse_literal_len ts l rest : parse_literal ts = POk (l, rest) -> List.length rest < List.length ts.
+Proof.
+  unfold parse_literal. pose proof (parse_sign_len ts) as HS.
+  destruct (parse_sign ts) as [s r]. cbn [snd] in HS.
+  destruct (parse_atom r) as [[a r']| |] eqn:E; try discriminate.
+  cbn [pbind]. intros [= _ <-]. apply parse_atom_len in E. lia.
+Qed.
+
+Lemma parse_comparison_len ts c rest : parse_comparison ts = POk (c, rest) ->
+  List.length rest < List.length ts.
+Proof.
+  unfold parse_comparison.
+  destruct (parse_term ts) as [[l r]| |] eqn:E; try discriminate. cbn [pbind].
+  apply parse_term_len in E.
+  destruct r as [|t r1]; [discriminate|]. destruct t; try discriminate.
+  destruct (parse_term r1) as [[rh r2]| |] eqn:E2; try discriminate. cbn [pbind].
+  intros [= _ <-]. apply parse_term_len in E2. cbn [List.length] in E. lia.
+Qed.
+
+Lemma parse_bformula_len ts f rest : parse_bformula ts = POk (f, rest) -> List.length rest < List.length ts.
+Proof.
+  unfold parse_bformula.
+  destruct (parse_comparison ts) as [[c r]| |] eqn:E; try discriminate.
+  - intros [= _ <-]. exact (parse_comparison_len _ _ _ E).
+  - destruct (parse_literal ts) as [[l r]| |] eqn:E2; try discriminate. cbn [pbind].
+    intros [= _ <-]. exact (parse_literal_len _ _ _ E2).
+Qed.
+
+Lemma parse_more_bformulas_len n : forall ts l rest, parse_more_bformulas n ts = POk (l, rest) ->
+  List.length rest <= List.length ts.
+Proof.
+  induction n as [|n IH]; intros ts l rest; cbn [parse_more_bformulas]; [intros [= _ <-]; lia|].
+  destruct ts as [|t r]; [intros [= _ <-]; lia|].
+  destruct t; try (intros [= _ <-]; lia).
+  - destruct (parse_bformula r) as [[u r']| |] eqn:E; try discriminate; [|intros [= _ <-]; lia].
+    apply parse_bformula_len in E.
+    destruct (parse_more_bformulas n r') as [[l' r'']| |] eqn:E2; try discriminate.
+    cbn [pbind]. intros [= _ <-]. apply IH in E2. cbn [List.length]. lia.
+  - destruct (parse_bformula r) as [[u r']| |] eqn:E; try discriminate; [|intros [= _ <-]; lia].
+    apply parse_bformula_len in E.
+    destruct (parse_more_bformulas n r') as [[l' r'']| |] eqn:E2; try discriminate.
+    cbn [pbind]. intros [= _ <-]. apply IH in E2. cbn [List.length]. lia.
+Qed.
+
+Lemma parse_more_bformulas_fuel : forall n m ts, List.length ts <= n -> List.length ts <= m ->
+  parse_more_bformulas n ts = parse_more_bformulas m ts.
+Proof.
+  induction n as [|n IH]; intros m ts Hn Hm.
+  - destruct ts; [|cbn in Hn; lia]. destruct m; reflexivity.
+  - destruct m as [|m]; [destruct ts; [reflexivity|cbn in Hm; lia]|].
+    cbn [parse_more_bformulas]. destruct ts as [|t r]; [reflexivity|]. cbn [List.length] in *.
+    destruct t; try reflexivity.
+    + destruct (parse_bformula r) as [[u r']| |] eqn:E; try reflexivity.
+      apply parse_bformula_len in E. rewrite (IH m) by lia. reflexivity.
+    + destruct (parse_bformula r) as [[u r']| |] eqn:E; try reflexivity.
+      apply parse_bformula_len in E. rewrite (IH m) by lia. reflexivity.
+Qed.
+
+Lemma parse_body_len ts b rest : parse_body ts = POk (b, rest) -> List.length rest <= List.length ts.
+Proof.
+  unfold parse_body.
+  destruct (parse_bformula ts) as [[f r]| |] eqn:E; try discriminate; [|intros [= _ <-]; lia].
+  apply parse_bformula_len in E.
+  destruct (parse_more_bformulas (List.length r) r) as [[l r']| |] eqn:E2; try discriminate.
+  cbn [pbind]. intros [= _ <-]. apply parse_more_bformulas_len in E2. lia.
+Qed.
+
+Lemma parse_head_len ts h rest : parse_head ts = POk (h, rest) -> List.length rest <= List.length ts.
+Proof.
+  unfold parse_head.
+  destruct (parse_atom ts) as [[a r]| |] eqn:E; try discriminate.
+  - intros [= _ <-]. apply parse_atom_len in E. lia.
+  - assert (F : forall h rest, (match ts with TkFalse :: r => POk (HFalsity, r) | _ => POk (HFalsity, ts) end) = POk (h, rest) ->
+                List.length rest <= List.length ts).
+    { intros h0 rest0. destruct ts as [|t r]; [intros [= _ <-]; lia|].
+      destruct t; intros [= _ <-]; cbn [List.length]; lia. }
+    destruct ts as [|t r]; [apply F|]. destruct t; try apply F.
+    destruct (parse_atom r) as [[a r']| |] eqn:E2; try discriminate; try apply F.
+    apply parse_atom_len in E2.
+    destruct r' as [|t' r'']; [apply F|]. destruct t'; try apply F.
+    intros [= _ <-]. cbn [List.length] in *. lia.
+Qed.
+
+(* a rule consumes at least its final "." *)
+Lemma parse_rule_len g ts r rest : parse_rule g ts = POk (r, rest) -> List.length rest < List.length ts.
+Proof.
+  intros H.
+  assert (H' : parse_rule_core ts = POk (r, rest)).
+  { unfold parse_rule in H. destruct ts as [|[] ts'], g; try exact H; discriminate. }
+  clear H. unfold parse_rule_core in H'.
+  destruct (parse_head ts) as [[h r0]| |] eqn:E; try discriminate. cbn [pbind] in H'.
+  apply parse_head_len in E.
+  assert (B : forall b r2, (match r0 with TkIf :: r1 => parse_body r1 | _ => POk ([], r0) end) = POk (b, r2) ->
+              List.length r2 <= List.length r0).
+  { intros b r2. destruct r0 as [|t r1]; [intros [= _ <-]; lia|].
+    destruct t; try (intros [= _ <-]; lia).
+    intros HB. apply parse_body_len in HB. cbn [List.length]. lia. }
+  destruct (match r0 with TkIf :: r1 => parse_body r1 | _ => POk ([], r0) end) as [[b r2]| |]; try discriminate.
+  cbn [pbind] in H'. specialize (B _ _ eq_refl).
+  destruct r2 as [|[] r3]; try discriminate. inversion H'; subst. cbn [List.length] in B. lia.
+Qed.
+
+Lemma parse_rules_fuel : forall n m g ts, List.length ts < n -> List.length ts < m ->
+  parse_rules n g ts = parse_rules m g ts.
+Proof.
+  induction n as [|n IH]; intros m g ts Hn Hm; [lia|]. destruct m as [|m]; [lia|].
+  cbn [parse_rules].
+  destruct (parse_rule g ts) as [[r ts']| |] eqn:E; try reflexivity.
+  apply parse_rule_len in E. rewrite (IH m) by lia. reflexivity.
+Qed.
+
+(* [parse_program_from] with an arbitrary counter above the bound it computes *)
+Theorem parse_program_from_fuel n g ts : List.length ts < n ->
+  pbind (parse_rules n g ts) (fun '(p, rest) => match rest with [] => POk p | _ => PFail end)
+  = parse_program_from g ts.
+Proof. intros H. unfold parse_program_from. rewrite (parse_rules_fuel n (S (List.length ts))) by lia. reflexivity. Qed.
+
+(* ================================================================ E. packaged for Properties/C14.v *)
+
+Theorem fuel_lexer :
+  (forall f o s, String.length s < f -> lex_go f o s = lex_go (S (String.length s)) o s) /\
+  (forall f s, String.length s < f -> skip_layout f s = skip_layout (S (String.length s)) s) /\
+  (forall f1 f2 f3 s, String.length s < f1 -> String.length s < f2 -> String.length s < f3 ->
+     lex_node_with f1 f2 f3 s = lex_node s).
+Proof.
+  split; [|split].
+  - intros. apply lex_go_fuel; lia.
+  - intros. apply skip_layout_fuel; lia.
+  - intros. apply lex_node_fuel; assumption.
+Qed.
+
+Theorem fuel_term :
+  (forall f ts, List.length ts < f -> peg_term f ts = peg_term (S (List.length ts)) ts) /\
+  (forall f n ts, List.length ts <= n ->
+     peg_tail (peg_term f) n ts = peg_tail (peg_term f) (List.length ts) ts) /\
+  (forall F rbp items, 2 * items_size items + 2 <= F ->
+     pratt_expr F rbp items = pratt_expr (2 * items_size items + 2) rbp items /\
+     pratt_expr F rbp items <> PFail) /\
+  (forall items, pratt items <> PFail) /\
+  (forall f g ts, List.length ts < f -> (forall items, 2 * items_size items + 2 <= g items) ->
+     parse_term_with f g ts = parse_term ts).
+Proof.
+  split; [|split; [|split; [|split]]].
+  - intros. apply peg_term_fuel; lia.
+  - intros. apply peg_tail_fuel; [apply peg_term_rec_len|lia|lia].
+  - intros. split; [apply pratt_expr_fuel|apply pratt_expr_no_fail]; assumption.
+  - exact pratt_never_fails.
+  - intros. apply parse_term_fuel; assumption.
+Qed.
+
+Theorem fuel_lists :
+  (forall n ts, List.length ts <= n -> parse_more_terms n ts = parse_more_terms (List.length ts) ts) /\
+  (forall n ts, List.length ts <= n ->
+     parse_more_bformulas n ts = parse_more_bformulas (List.length ts) ts) /\
+  (forall n g ts, List.length ts < n -> parse_rules n g ts = parse_rules (S (List.length ts)) g ts).
+Proof.
+  split; [|split].
+  - intros. apply parse_more_terms_fuel; lia.
+  - intros. apply parse_more_bformulas_fuel; lia.
+  - intros. apply parse_rules_fuel; lia.
+Qed.
